@@ -53,9 +53,10 @@ def model_stage(ctx, stats):
             if N.soften(r).timed_out:
                 ctx.skipped += 1
                 continue
-            if r.violated != MUTANTS[m]:
-                raise V.Inconclusive("spec mutant %s was not refuted by %s (got %s)" % (m, MUTANTS[m], r.violated or r.error))
-            stats["spec_mutants_refuted"].append(m)
+            if not r.violated or r.violated == "Deadlock":
+                raise V.Inconclusive("spec mutant %s was not refuted (expected %s, got %s)" % (m, MUTANTS[m], r.violated or r.error))
+            # (with several workers TLC reports whichever violated invariant it meets first)
+            stats["spec_mutants_refuted"].append(m if r.violated == MUTANTS[m] else "%s (by %s)" % (m, r.violated))
     stats["model_runs"] = runs
     return res[items[0][0]]
 
@@ -132,6 +133,11 @@ def run(ctx):
     # strict stage: proposals ended by a time-out (no quorum), then writes through the same process
     rounds.append(dict(name="stage-timeout", engine="mem", ckpt=True,
                        args=["-vnode", vnode, "-engine", "mem", "-kind", "timeout", "-seed", str(ctx.seed)]))
+
+    # strict stage: a write batch made on purpose (1-replica group, raft goroutine held at ready.advanced
+    # until the commands are queued, hook wait.register): answers swapped inside a batch are visible
+    rounds.append(dict(name="stage-batch", engine="mem", ckpt=True,
+                       args=["-vnode", vnode, "-engine", "mem", "-kind", "batch", "-n", "1", "-seed", str(ctx.seed)]))
 
     def do(s):
         summ, tr, d = N.run_scenario(ctx, zr, "clustersim", s["name"], s["args"], timeout=600)
